@@ -35,7 +35,7 @@
         │ P           P*          P*          P           P           P*          P           P           P           P
   MPt   │ any point c of a: the Pt row with c
         │ P           P           P           P           P           P           P           P           P           P
-        │   rows Ln, LS, MLS, MPt: `intersectsM_thin_eq_spec` (left operand thin); the nine linear cells also
+        │   rows Ln, LS, MLS, MPt: `intersectsM_eq_spec_partial` (left operand thin); the nine linear cells also
         │   `intersectsM_linear_eq_spec` [P*], as segment pairs `intersectsM_linear_iff`
   Pg    │ polyCoord   polyLine    lsPoly      polyPoly    any polyCo. any lsPoly  any polyPo. polyPoly◦   polyPoly∘   isxColl
         │ P           P           P           O           P           P           O           O           O           P°
@@ -47,7 +47,7 @@
         │ P           P           P           O           P           P           O           O           O           P°
   GC    │ bbox; any member g of a: `intersectsM g b` (nested collections recurse)
         │ P           P           P           P°          P           P           P°          P°          P°          P°
-        │   rows Pg, Rc, Tr, MPg, GC with a thin right operand: `intersectsM_thin_eq_spec` (right operand thin);
+        │   rows Pg, Rc, Tr, MPg, GC with a thin right operand: `intersectsM_eq_spec_partial` (right operand thin);
         │   Rc × Rc: `intersectsM_rect_rect_eq_spec`
   (∘ = through `Triangle::to_polygon`, ◦ = through `Rect::to_polygon`; lsCoord = `lineStringCoord`;
    polyPoly p q = bbox; lsPoly q.ext p || any hole r of q: lsPoly r p || lsPoly p.ext q;  lsPoly cs p = bbox; any polyLine p s)
